@@ -634,3 +634,376 @@ Example C04_example_intersection :
   xred (inter_cell base false false (mkSub [0; 2] []) (mkSub [0] [1])) = Fin (-2) /\
   xred (inter_cell_colfirst base false false (mkSub [0; 2] []) (mkSub [0] [1])) = Fin (-2).
 Proof. vm_compute. repeat split; reflexivity. Qed.
+
+(* ==================================================================================== *)
+(** * (3, continued) merge equivalence for the measures left partial above
+      (Proofs/ComposeMerge.v; supersedes the `_partial` notes of (3) in the header as follows)
+
+   NOW PROVED, for all surveys and sizes:
+     - COLUMN subtotal (rows categorical or MR): the derived measures -- row / column / table
+       proportions, their variances, the column standard error, the z-score cell and ANY congruent
+       function of (count, row base, column base, table base): C04_merge_col_*
+     - INTERSECTIONS BY MERGING ON BOTH DIMENSIONS (categorical x categorical, 2-D or a 3-D
+       partition): counts, row / column / table bases, the three proportions, the three variances,
+       the z-score cell and ANY congruent cell function at (row subtotal, column subtotal) equal
+       those of cell (merged row, merged column) of the table tabulated from the survey in which
+       BOTH the row addends and the column addends are merged in the data: C04_merge_inter_*
+     - ROW subtotal: any function of the z-score (so the p-value 2(1 - Phi|z|) for ANY Phi, the
+       CDF being a parameter), population counts N * f * (proportion picked by the categorical-date
+       position), and the rows scale MEAN of the inserted row: C04_merge_pvalue_any_function,
+       C04_merge_population_counts, C04_merge_scale_mean_partial
+   STILL NOT THEOREMS (checked by the relational oracle only):
+     - scale median / std-dev / std-err of a merged vector (only the mean is proved; hence the
+       name C04_merge_scale_mean_partial; full statement: every rows / columns scale statistic of
+       the inserted vector equals that of the merged category's vector), and the columns-scale
+       statistics, whose vector runs ACROSS the merged dimension (needs Spec/Stats.v at survey level)
+     - share of sum (not count based: needs a survey-level spec of the sum measure)
+     - pairwise t / p with a subtotal as selected or compared column (congruent functions of column
+       proportions and column bases proved equal here, but their model blocks are not restated)
+     - strands (1-D): only the value theorem C04_subtotal_strand_value *)
+From CC Require Import Model.Population Model.Scale Proofs.ComposeMerge.
+
+(* ---- COLUMN subtotal: derived measures ------------------------------------------------ *)
+Theorem C04_merge_col_blocks S tv vr vc kr mr ms k rsubs csubs l dn :
+  t_ok tv -> cat_or_mr kr -> k < t_n tv -> vr <> vc -> tv_other tv vc -> l < length csubs ->
+  s_sub (nth l csubs nosub) = [] ->
+  Forall (fun j => j < n_valid ms) (s_add (nth l csubs nosub)) -> NoDup (s_add (nth l csubs nosub)) ->
+  fresh_for vc ms S -> 0 < n_valid ms ->
+  forall i, i < nval mr ->
+  mnth (b_cols (count_blocks (nval mr) (nval ms) rsubs csubs (oc_counts S tv vr vc kr mr ms k) dn)) i l
+    =x= mnth (mc_counts S tv vr vc kr mr ms k csubs l) i (nval ms) /\
+  mnth (b_cols (row_base_blocks (nval mr) (nval ms) rsubs csubs (oc_rb S tv vr vc kr mr ms k))) i l
+    =x= mnth (mc_rb S tv vr vc kr mr ms k csubs l) i (nval ms) /\
+  mnth (b_cols (col_base_blocks (nval mr) (nval ms) rsubs csubs (oc_cb S tv vr vc kr mr ms k))) i l
+    =x= mnth (mc_cb S tv vr vc kr mr ms k csubs l) i (nval ms) /\
+  mnth (b_cols (table_base_blocks (nval mr) (nval ms) rsubs csubs (oc_tb S tv vr vc kr mr ms k))) i l
+    =x= mnth (mc_tb S tv vr vc kr mr ms k csubs l) i (nval ms).
+Proof.
+  exact (fun Ht Hr Hk Hv Htv Hl Hs Ho Hn Hf Hp i Hi =>
+    conj (merge_col_block_counts S tv vr vc kr mr ms k rsubs csubs l dn Ht Hr Hk Hv Htv Hl Hs Ho Hn Hf i Hi)
+   (conj (merge_col_block_row_bases S tv vr vc kr mr ms k rsubs csubs l Ht Hr Hk Hv Htv Hl Ho Hf Hp i Hi)
+   (conj (merge_col_block_column_bases S tv vr vc kr mr ms k rsubs csubs l Ht Hr Hk Hv Htv Hl Hs Ho Hn Hf i Hi)
+         (merge_col_block_table_bases S tv vr vc kr mr ms k rsubs csubs l Ht Hr Hk Hv Htv Hl Ho Hf Hp i Hi)))).
+Qed.
+Print Assumptions C04_merge_col_blocks.
+
+Theorem C04_merge_col_proportions S tv vr vc kr mr ms k rsubs csubs rsubs' csubs' l dn dn' rd cd rd' cd' :
+  t_ok tv -> cat_or_mr kr -> k < t_n tv -> vr <> vc -> tv_other tv vc -> l < length csubs ->
+  s_sub (nth l csubs nosub) = [] ->
+  Forall (fun j => j < n_valid ms) (s_add (nth l csubs nosub)) -> NoDup (s_add (nth l csubs nosub)) ->
+  fresh_for vc ms S -> 0 < n_valid ms ->
+  forall i, i < nval mr ->
+  mnth (b_cols (row_proportions (nval mr) (nval ms) rsubs csubs (oc_counts S tv vr vc kr mr ms k) dn rd cd
+                                (oc_rb S tv vr vc kr mr ms k))) i l
+    =x= mnth (b_base (row_proportions (nval mr) (Datatypes.S (nval ms)) rsubs' csubs'
+                        (mc_counts S tv vr vc kr mr ms k csubs l) dn' rd' cd'
+                        (mc_rb S tv vr vc kr mr ms k csubs l))) i (nval ms) /\
+  mnth (b_cols (col_proportions (nval mr) (nval ms) rsubs csubs (oc_counts S tv vr vc kr mr ms k) dn rd cd
+                                (oc_cb S tv vr vc kr mr ms k))) i l
+    =x= mnth (b_base (col_proportions (nval mr) (Datatypes.S (nval ms)) rsubs' csubs'
+                        (mc_counts S tv vr vc kr mr ms k csubs l) dn' rd' cd'
+                        (mc_cb S tv vr vc kr mr ms k csubs l))) i (nval ms) /\
+  mnth (b_cols (table_proportions (nval mr) (nval ms) rsubs csubs (oc_counts S tv vr vc kr mr ms k) dn
+                                  (oc_tb S tv vr vc kr mr ms k))) i l
+    =x= mnth (b_base (table_proportions (nval mr) (Datatypes.S (nval ms)) rsubs' csubs'
+                        (mc_counts S tv vr vc kr mr ms k csubs l) dn'
+                        (mc_tb S tv vr vc kr mr ms k csubs l))) i (nval ms).
+Proof.
+  exact (fun Ht Hr Hk Hv Htv Hl Hs Ho Hn Hf Hp i Hi =>
+    conj (merge_col_row_proportions S tv vr vc kr mr ms k rsubs csubs rsubs' csubs' l dn dn' rd cd rd' cd'
+            Ht Hr Hk Hv Htv Hl Hs Ho Hn Hf Hp i Hi)
+   (conj (merge_col_column_proportions S tv vr vc kr mr ms k rsubs csubs rsubs' csubs' l dn dn' rd cd rd' cd'
+            Ht Hr Hk Hv Htv Hl Hs Ho Hn Hf i Hi)
+         (merge_col_table_proportions S tv vr vc kr mr ms k rsubs csubs rsubs' csubs' l dn dn'
+            Ht Hr Hk Hv Htv Hl Hs Ho Hn Hf Hp i Hi))).
+Qed.
+Print Assumptions C04_merge_col_proportions.
+
+(* variance of the column proportion and its squared standard error (the row / table twins are
+   merge_col_row_variance / merge_col_table_variance of Proofs/ComposeMerge.v) *)
+Theorem C04_merge_col_column_variance S tv vr vc kr mr ms k rsubs csubs rsubs' csubs' l dn dn' rd cd rd' cd' :
+  t_ok tv -> cat_or_mr kr -> k < t_n tv -> vr <> vc -> tv_other tv vc -> l < length csubs ->
+  s_sub (nth l csubs nosub) = [] ->
+  Forall (fun j => j < n_valid ms) (s_add (nth l csubs nosub)) -> NoDup (s_add (nth l csubs nosub)) ->
+  fresh_for vc ms S ->
+  forall i, i < nval mr ->
+  let Pc := col_proportions (nval mr) (nval ms) rsubs csubs (oc_counts S tv vr vc kr mr ms k) dn rd cd
+                            (oc_cb S tv vr vc kr mr ms k) in
+  let Tc := col_base_blocks (nval mr) (nval ms) rsubs csubs (oc_cb S tv vr vc kr mr ms k) in
+  let Pc' := col_proportions (nval mr) (Datatypes.S (nval ms)) rsubs' csubs'
+                             (mc_counts S tv vr vc kr mr ms k csubs l) dn' rd' cd'
+                             (mc_cb S tv vr vc kr mr ms k csubs l) in
+  let Tc' := col_base_blocks (nval mr) (Datatypes.S (nval ms)) rsubs' csubs' (mc_cb S tv vr vc kr mr ms k csubs l) in
+  mnth (b_cols (variance_blocks (oc_counts S tv vr vc kr mr ms k) (nval mr) (nval ms) rsubs csubs Pc Tc)) i l
+    =x= mnth (b_base (variance_blocks (mc_counts S tv vr vc kr mr ms k csubs l) (nval mr) (Datatypes.S (nval ms))
+                        rsubs' csubs' Pc' Tc')) i (nval ms) /\
+  stderr_sq (mnth (b_cols (variance_blocks (oc_counts S tv vr vc kr mr ms k) (nval mr) (nval ms) rsubs csubs Pc Tc)) i l)
+            (mnth (b_cols Tc) i l)
+    =x= stderr_sq (mnth (b_base (variance_blocks (mc_counts S tv vr vc kr mr ms k csubs l) (nval mr)
+                                   (Datatypes.S (nval ms)) rsubs' csubs' Pc' Tc')) i (nval ms))
+                  (mnth (b_base Tc') i (nval ms)).
+Proof.
+  exact (fun Ht Hr Hk Hv Htv Hl Hs Ho Hn Hf i Hi =>
+    conj (merge_col_column_variance S tv vr vc kr mr ms k rsubs csubs rsubs' csubs' l dn dn' rd cd rd' cd'
+            Ht Hr Hk Hv Htv Hl Hs Ho Hn Hf i Hi)
+         (merge_col_column_stderr_sq S tv vr vc kr mr ms k rsubs csubs rsubs' csubs' l dn dn' rd cd rd' cd'
+            Ht Hr Hk Hv Htv Hl Hs Ho Hn Hf i Hi)).
+Qed.
+Print Assumptions C04_merge_col_column_variance.
+
+Theorem C04_merge_col_any_cell_measure S tv vr vc kr mr ms k rsubs csubs l dn :
+  t_ok tv -> cat_or_mr kr -> k < t_n tv -> vr <> vc -> tv_other tv vc -> l < length csubs ->
+  s_sub (nth l csubs nosub) = [] ->
+  Forall (fun j => j < n_valid ms) (s_add (nth l csubs nosub)) -> NoDup (s_add (nth l csubs nosub)) ->
+  fresh_for vc ms S -> 0 < n_valid ms ->
+  forall i, i < nval mr ->
+  forall f : xq -> xq -> xq -> xq -> xq, Proper (xeq ==> xeq ==> xeq ==> xeq ==> xeq) f ->
+  f (mnth (b_cols (count_blocks (nval mr) (nval ms) rsubs csubs (oc_counts S tv vr vc kr mr ms k) dn)) i l)
+    (mnth (b_cols (row_base_blocks (nval mr) (nval ms) rsubs csubs (oc_rb S tv vr vc kr mr ms k))) i l)
+    (mnth (b_cols (col_base_blocks (nval mr) (nval ms) rsubs csubs (oc_cb S tv vr vc kr mr ms k))) i l)
+    (mnth (b_cols (table_base_blocks (nval mr) (nval ms) rsubs csubs (oc_tb S tv vr vc kr mr ms k))) i l)
+  =x= f (mnth (mc_counts S tv vr vc kr mr ms k csubs l) i (nval ms))
+        (mnth (mc_rb S tv vr vc kr mr ms k csubs l) i (nval ms))
+        (mnth (mc_cb S tv vr vc kr mr ms k csubs l) i (nval ms))
+        (mnth (mc_tb S tv vr vc kr mr ms k csubs l) i (nval ms)).
+Proof. exact (merge_col_any_cell_measure S tv vr vc kr mr ms k rsubs csubs l dn). Qed.
+Print Assumptions C04_merge_col_any_cell_measure.
+
+(* ---- INTERSECTIONS by merging on both dimensions ---------------------------------------- *)
+(* [merged_both_survey]: Spec/Merge.v::recode on the rows variable, then on the columns variable;
+   [b_count] / [b_rb] / [b_cb] / [b_tb]: the count and the row / column / table base of cell
+   (merged row, merged column) of the table tabulated from it (C04_merge_inter_numbers) *)
+Theorem C04_merge_inter_numbers S tv vr vc ms mc k rsubs csubs kk l :
+  let rs := nth kk rsubs nosub in
+  let cs := nth l csubs nosub in
+  let S2 := merged_both_survey S vr vc ms mc rs cs in
+  let V2 := slice_of tv vr KCat (merged_flags ms) vc KCat (merged_flags mc) S2 k in
+  S2 = recode vc (positions mc (s_add cs)) (merged_pos mc) (recode vr (positions ms (s_add rs)) (merged_pos ms) S) /\
+  b_count S tv vr vc ms mc k rsubs csubs kk l = counts_of V2 CCat CCat (nval ms) (nval mc) /\
+  b_rb S tv vr vc ms mc k rsubs csubs kk l
+    = row_bases_of V2 (nval (merged_flags mc)) (length mrv) CCat CCat (nval ms) (nval mc) /\
+  b_cb S tv vr vc ms mc k rsubs csubs kk l
+    = column_bases_of V2 (nval (merged_flags ms)) (length mrv) CCat CCat (nval ms) (nval mc) /\
+  b_tb S tv vr vc ms mc k rsubs csubs kk l
+    = table_bases_of V2 (nval (merged_flags ms)) (nval (merged_flags mc)) (length mrv) (length mrv)
+                     CCat CCat (nval ms) (nval mc).
+Proof. exact (conj eq_refl (conj eq_refl (conj eq_refl (conj eq_refl eq_refl)))). Qed.
+Print Assumptions C04_merge_inter_numbers.
+
+Theorem C04_merge_inter_blocks S tv vr vc ms mc k rsubs csubs kk l dn :
+  t_ok tv -> k < t_n tv -> vr <> vc -> tv_other tv vr -> tv_other tv vc ->
+  kk < length rsubs -> l < length csubs ->
+  s_sub (nth kk rsubs nosub) = [] -> s_sub (nth l csubs nosub) = [] ->
+  Forall (fun i => i < n_valid ms) (s_add (nth kk rsubs nosub)) ->
+  Forall (fun j => j < n_valid mc) (s_add (nth l csubs nosub)) ->
+  NoDup (s_add (nth kk rsubs nosub)) -> NoDup (s_add (nth l csubs nosub)) ->
+  fresh_for vr ms S -> fresh_for vc mc S -> 0 < n_valid ms -> 0 < n_valid mc ->
+  mnth (b_inter (count_blocks (nval ms) (nval mc) rsubs csubs (o_counts S tv vr vc KCat ms mc k) dn)) kk l
+    =x= b_count S tv vr vc ms mc k rsubs csubs kk l /\
+  mnth (b_inter (row_base_blocks (nval ms) (nval mc) rsubs csubs (o_rb S tv vr vc KCat ms mc k))) kk l
+    =x= b_rb S tv vr vc ms mc k rsubs csubs kk l /\
+  mnth (b_inter (col_base_blocks (nval ms) (nval mc) rsubs csubs (o_cb S tv vr vc KCat ms mc k))) kk l
+    =x= b_cb S tv vr vc ms mc k rsubs csubs kk l /\
+  mnth (b_inter (table_base_blocks (nval ms) (nval mc) rsubs csubs (o_tb S tv vr vc KCat ms mc k))) kk l
+    =x= b_tb S tv vr vc ms mc k rsubs csubs kk l.
+Proof.
+  exact (fun Ht Hk Hv Htr Htc Hkk Hl Hrs Hcs Hro Hco Hrn Hcn Hrf Hcf Hrp Hcp =>
+    conj (merge_inter_block_counts S tv vr vc ms mc k rsubs csubs kk l dn Ht Hk Hv Htr Htc Hkk Hl Hrs Hcs Hro Hco Hrn Hcn Hrf Hcf)
+   (conj (merge_inter_block_row_bases S tv vr vc ms mc k rsubs csubs kk l Ht Hk Hv Htr Htc Hkk Hl Hrs Hro Hco Hrn Hrf Hcf Hcp)
+   (conj (merge_inter_block_column_bases S tv vr vc ms mc k rsubs csubs kk l Ht Hk Hv Htr Htc Hkk Hl Hcs Hro Hco Hcn Hrf Hcf Hrp)
+         (merge_inter_block_table_bases S tv vr vc ms mc k rsubs csubs kk l Ht Hk Hv Htr Htc Hkk Hl Hro Hco Hrf Hcf Hrp Hcp)))).
+Qed.
+Print Assumptions C04_merge_inter_blocks.
+
+Theorem C04_merge_inter_proportions S tv vr vc ms mc k rsubs csubs kk l dn rd cd :
+  t_ok tv -> k < t_n tv -> vr <> vc -> tv_other tv vr -> tv_other tv vc ->
+  kk < length rsubs -> l < length csubs ->
+  s_sub (nth kk rsubs nosub) = [] -> s_sub (nth l csubs nosub) = [] ->
+  Forall (fun i => i < n_valid ms) (s_add (nth kk rsubs nosub)) ->
+  Forall (fun j => j < n_valid mc) (s_add (nth l csubs nosub)) ->
+  NoDup (s_add (nth kk rsubs nosub)) -> NoDup (s_add (nth l csubs nosub)) ->
+  fresh_for vr ms S -> fresh_for vc mc S -> 0 < n_valid ms -> 0 < n_valid mc ->
+  mnth (b_inter (row_proportions (nval ms) (nval mc) rsubs csubs (o_counts S tv vr vc KCat ms mc k) dn rd cd
+                                 (o_rb S tv vr vc KCat ms mc k))) kk l
+    =x= xdiv (b_count S tv vr vc ms mc k rsubs csubs kk l) (b_rb S tv vr vc ms mc k rsubs csubs kk l) /\
+  mnth (b_inter (col_proportions (nval ms) (nval mc) rsubs csubs (o_counts S tv vr vc KCat ms mc k) dn rd cd
+                                 (o_cb S tv vr vc KCat ms mc k))) kk l
+    =x= xdiv (b_count S tv vr vc ms mc k rsubs csubs kk l) (b_cb S tv vr vc ms mc k rsubs csubs kk l) /\
+  mnth (b_inter (table_proportions (nval ms) (nval mc) rsubs csubs (o_counts S tv vr vc KCat ms mc k) dn
+                                   (o_tb S tv vr vc KCat ms mc k))) kk l
+    =x= xdiv (b_count S tv vr vc ms mc k rsubs csubs kk l) (b_tb S tv vr vc ms mc k rsubs csubs kk l).
+Proof.
+  exact (fun Ht Hk Hv Htr Htc Hkk Hl Hrs Hcs Hro Hco Hrn Hcn Hrf Hcf Hrp Hcp =>
+    conj (merge_inter_row_proportion S tv vr vc ms mc k rsubs csubs kk l dn Ht Hk Hv Htr Htc Hkk Hl Hrs Hcs Hro Hco Hrn Hcn Hrf Hcf Hcp rd cd)
+   (conj (merge_inter_column_proportion S tv vr vc ms mc k rsubs csubs kk l dn Ht Hk Hv Htr Htc Hkk Hl Hrs Hcs Hro Hco Hrn Hcn Hrf Hcf Hrp rd cd)
+         (merge_inter_table_proportion S tv vr vc ms mc k rsubs csubs kk l dn Ht Hk Hv Htr Htc Hkk Hl Hrs Hcs Hro Hco Hrn Hcn Hrf Hcf Hrp Hcp))).
+Qed.
+Print Assumptions C04_merge_inter_proportions.
+
+(* the three-term variance at an intersection is the body formula on the both-merged cell *)
+Theorem C04_merge_inter_variances S tv vr vc ms mc k rsubs csubs kk l dn rd cd :
+  t_ok tv -> k < t_n tv -> vr <> vc -> tv_other tv vr -> tv_other tv vc ->
+  kk < length rsubs -> l < length csubs ->
+  s_sub (nth kk rsubs nosub) = [] -> s_sub (nth l csubs nosub) = [] ->
+  Forall (fun i => i < n_valid ms) (s_add (nth kk rsubs nosub)) ->
+  Forall (fun j => j < n_valid mc) (s_add (nth l csubs nosub)) ->
+  NoDup (s_add (nth kk rsubs nosub)) -> NoDup (s_add (nth l csubs nosub)) ->
+  fresh_for vr ms S -> fresh_for vc mc S -> 0 < n_valid ms -> 0 < n_valid mc ->
+  let OC := o_counts S tv vr vc KCat ms mc k in
+  let bc := b_count S tv vr vc ms mc k rsubs csubs kk l in
+  mnth (b_inter (variance_blocks OC (nval ms) (nval mc) rsubs csubs
+                   (row_proportions (nval ms) (nval mc) rsubs csubs OC dn rd cd (o_rb S tv vr vc KCat ms mc k))
+                   (row_base_blocks (nval ms) (nval mc) rsubs csubs (o_rb S tv vr vc KCat ms mc k)))) kk l
+    =x= var_cell (xdiv bc (b_rb S tv vr vc ms mc k rsubs csubs kk l)) (b_rb S tv vr vc ms mc k rsubs csubs kk l) bc (Fin 0) /\
+  mnth (b_inter (variance_blocks OC (nval ms) (nval mc) rsubs csubs
+                   (col_proportions (nval ms) (nval mc) rsubs csubs OC dn rd cd (o_cb S tv vr vc KCat ms mc k))
+                   (col_base_blocks (nval ms) (nval mc) rsubs csubs (o_cb S tv vr vc KCat ms mc k)))) kk l
+    =x= var_cell (xdiv bc (b_cb S tv vr vc ms mc k rsubs csubs kk l)) (b_cb S tv vr vc ms mc k rsubs csubs kk l) bc (Fin 0) /\
+  mnth (b_inter (variance_blocks OC (nval ms) (nval mc) rsubs csubs
+                   (table_proportions (nval ms) (nval mc) rsubs csubs OC dn (o_tb S tv vr vc KCat ms mc k))
+                   (table_base_blocks (nval ms) (nval mc) rsubs csubs (o_tb S tv vr vc KCat ms mc k)))) kk l
+    =x= var_cell (xdiv bc (b_tb S tv vr vc ms mc k rsubs csubs kk l)) (b_tb S tv vr vc ms mc k rsubs csubs kk l) bc (Fin 0).
+Proof.
+  exact (fun Ht Hk Hv Htr Htc Hkk Hl Hrs Hcs Hro Hco Hrn Hcn Hrf Hcf Hrp Hcp =>
+    conj (merge_inter_row_variance S tv vr vc ms mc k rsubs csubs kk l dn rd cd Ht Hk Hv Htr Htc Hkk Hl Hrs Hcs Hro Hco Hrn Hcn Hrf Hcf Hcp)
+   (conj (merge_inter_column_variance S tv vr vc ms mc k rsubs csubs kk l dn rd cd Ht Hk Hv Htr Htc Hkk Hl Hrs Hcs Hro Hco Hrn Hcn Hrf Hcf Hrp)
+         (merge_inter_table_variance S tv vr vc ms mc k rsubs csubs kk l dn Ht Hk Hv Htr Htc Hkk Hl Hrs Hcs Hro Hco Hrn Hcn Hrf Hcf Hrp Hcp))).
+Qed.
+Print Assumptions C04_merge_inter_variances.
+
+Theorem C04_merge_inter_any_cell_measure S tv vr vc ms mc k rsubs csubs kk l dn :
+  t_ok tv -> k < t_n tv -> vr <> vc -> tv_other tv vr -> tv_other tv vc ->
+  kk < length rsubs -> l < length csubs ->
+  s_sub (nth kk rsubs nosub) = [] -> s_sub (nth l csubs nosub) = [] ->
+  Forall (fun i => i < n_valid ms) (s_add (nth kk rsubs nosub)) ->
+  Forall (fun j => j < n_valid mc) (s_add (nth l csubs nosub)) ->
+  NoDup (s_add (nth kk rsubs nosub)) -> NoDup (s_add (nth l csubs nosub)) ->
+  fresh_for vr ms S -> fresh_for vc mc S -> 0 < n_valid ms -> 0 < n_valid mc ->
+  forall f : xq -> xq -> xq -> xq -> xq, Proper (xeq ==> xeq ==> xeq ==> xeq ==> xeq) f ->
+  f (mnth (b_inter (count_blocks (nval ms) (nval mc) rsubs csubs (o_counts S tv vr vc KCat ms mc k) dn)) kk l)
+    (mnth (b_inter (row_base_blocks (nval ms) (nval mc) rsubs csubs (o_rb S tv vr vc KCat ms mc k))) kk l)
+    (mnth (b_inter (col_base_blocks (nval ms) (nval mc) rsubs csubs (o_cb S tv vr vc KCat ms mc k))) kk l)
+    (mnth (b_inter (table_base_blocks (nval ms) (nval mc) rsubs csubs (o_tb S tv vr vc KCat ms mc k))) kk l)
+  =x= f (b_count S tv vr vc ms mc k rsubs csubs kk l) (b_rb S tv vr vc ms mc k rsubs csubs kk l)
+        (b_cb S tv vr vc ms mc k rsubs csubs kk l) (b_tb S tv vr vc ms mc k rsubs csubs kk l).
+Proof. exact (merge_inter_any_cell_measure S tv vr vc ms mc k rsubs csubs kk l dn). Qed.
+Print Assumptions C04_merge_inter_any_cell_measure.
+
+(* ---- ROW subtotal: p-values, population, scale mean ----------------------------------------- *)
+(* any function g of the model's z-statistic that respects =x= takes the same value on the subtotal
+   row and on the merged row: in particular p = 2 (1 - Phi |z|) for ANY Phi (C12: pval Phi) *)
+Theorem C04_merge_pvalue_any_function S tv vr vc kc ms mc k rsubs csubs kk dn :
+  t_ok tv -> cat_or_mr kc -> k < t_n tv -> vc <> vr -> tv_other tv vr -> kk < length rsubs ->
+  s_sub (nth kk rsubs nosub) = [] ->
+  Forall (fun i => i < n_valid ms) (s_add (nth kk rsubs nosub)) -> NoDup (s_add (nth kk rsubs nosub)) ->
+  fresh_for vr ms S -> 0 < n_valid ms ->
+  forall (A : Type) (g : xq -> A) j, j < nval mc -> (forall x y, x =x= y -> g x = g y) ->
+  g (z_zabs (mnth (b_rows (count_blocks (nval ms) (nval mc) rsubs csubs (o_counts S tv vr vc kc ms mc k) dn)) kk j)
+            (mnth (b_rows (row_base_blocks (nval ms) (nval mc) rsubs csubs (o_rb S tv vr vc kc ms mc k))) kk j)
+            (mnth (b_rows (col_base_blocks (nval ms) (nval mc) rsubs csubs (o_cb S tv vr vc kc ms mc k))) kk j)
+            (mnth (b_rows (table_base_blocks (nval ms) (nval mc) rsubs csubs (o_tb S tv vr vc kc ms mc k))) kk j))
+  = g (z_zabs (mnth (m_counts S tv vr vc kc ms mc k rsubs kk) (nval ms) j)
+              (mnth (m_rb S tv vr vc kc ms mc k rsubs kk) (nval ms) j)
+              (mnth (m_cb S tv vr vc kc ms mc k rsubs kk) (nval ms) j)
+              (mnth (m_tb S tv vr vc kc ms mc k rsubs kk) (nval ms) j)).
+Proof.
+  exact (fun Ht Hc Hk Hv Htv Hkk Hs Ho Hn Hf Hp A g j =>
+           @merge_z_function S tv vr vc kc ms mc k rsubs csubs kk dn Ht Hc Hk Hv Htv Hkk Hs Ho Hn Hf Hp A g j).
+Qed.
+Print Assumptions C04_merge_pvalue_any_function.
+
+Theorem C04_merge_population_counts S tv vr vc kc ms mc k rsubs csubs rsubs' csubs' kk dn dn' rd cd rd' cd' :
+  t_ok tv -> cat_or_mr kc -> k < t_n tv -> vc <> vr -> tv_other tv vr -> kk < length rsubs ->
+  s_sub (nth kk rsubs nosub) = [] ->
+  Forall (fun i => i < n_valid ms) (s_add (nth kk rsubs nosub)) -> NoDup (s_add (nth kk rsubs nosub)) ->
+  fresh_for vr ms S -> 0 < n_valid ms ->
+  forall rcd ccd N f j, j < nval mc ->
+  pop_cell (pop_choice rcd ccd
+     (mnth (b_rows (row_proportions (nval ms) (nval mc) rsubs csubs (o_counts S tv vr vc kc ms mc k) dn rd cd
+                                    (o_rb S tv vr vc kc ms mc k))) kk j)
+     (mnth (b_rows (col_proportions (nval ms) (nval mc) rsubs csubs (o_counts S tv vr vc kc ms mc k) dn rd cd
+                                    (o_cb S tv vr vc kc ms mc k))) kk j)
+     (mnth (b_rows (table_proportions (nval ms) (nval mc) rsubs csubs (o_counts S tv vr vc kc ms mc k) dn
+                                      (o_tb S tv vr vc kc ms mc k))) kk j)) N f false
+  =x= pop_cell (pop_choice rcd ccd
+     (mnth (b_base (row_proportions (Datatypes.S (nval ms)) (nval mc) rsubs' csubs'
+                      (m_counts S tv vr vc kc ms mc k rsubs kk) dn' rd' cd' (m_rb S tv vr vc kc ms mc k rsubs kk))) (nval ms) j)
+     (mnth (b_base (col_proportions (Datatypes.S (nval ms)) (nval mc) rsubs' csubs'
+                      (m_counts S tv vr vc kc ms mc k rsubs kk) dn' rd' cd' (m_cb S tv vr vc kc ms mc k rsubs kk))) (nval ms) j)
+     (mnth (b_base (table_proportions (Datatypes.S (nval ms)) (nval mc) rsubs' csubs'
+                      (m_counts S tv vr vc kc ms mc k rsubs kk) dn' (m_tb S tv vr vc kc ms mc k rsubs kk))) (nval ms) j))
+     N f false.
+Proof. exact (merge_population_counts S tv vr vc kc ms mc k rsubs csubs rsubs' csubs' kk dn dn' rd cd rd' cd'). Qed.
+Print Assumptions C04_merge_population_counts.
+
+(* rows scale mean of the inserted row (its counts / row bases over all base columns, any numeric
+   values [vals] of the columns, NaN = no value) = that of the merged category's row.
+   _partial: median / std-dev / std-err and the columns-scale statistics are not proved (see above). *)
+Theorem C04_merge_scale_mean_partial S tv vr vc kc ms mc k rsubs csubs kk dn :
+  t_ok tv -> cat_or_mr kc -> k < t_n tv -> vc <> vr -> tv_other tv vr -> kk < length rsubs ->
+  s_sub (nth kk rsubs nosub) = [] ->
+  Forall (fun i => i < n_valid ms) (s_add (nth kk rsubs nosub)) -> NoDup (s_add (nth kk rsubs nosub)) ->
+  fresh_for vr ms S -> 0 < n_valid ms ->
+  forall vals,
+  scale_mean_vec
+    (tab (nval mc) (fun j => mnth (b_rows (count_blocks (nval ms) (nval mc) rsubs csubs (o_counts S tv vr vc kc ms mc k) dn)) kk j))
+    (tab (nval mc) (fun j => mnth (b_rows (row_base_blocks (nval ms) (nval mc) rsubs csubs (o_rb S tv vr vc kc ms mc k))) kk j))
+    vals
+  =x= scale_mean_vec
+    (tab (nval mc) (fun j => mnth (m_counts S tv vr vc kc ms mc k rsubs kk) (nval ms) j))
+    (tab (nval mc) (fun j => mnth (m_rb S tv vr vc kc ms mc k rsubs kk) (nval ms) j))
+    vals.
+Proof. exact (merge_scale_mean S tv vr vc kc ms mc k rsubs csubs kk dn). Qed.
+Print Assumptions C04_merge_scale_mean_partial.
+
+(* Non-vacuity: the 4 x 2 table of [ex_S] with the row subtotal 0+2 and the column subtotal 0+1.
+   Intersection count 1 + 1/2 + 2 + 1 = 9/2 = the both-merged cell; the column subtotal against the
+   merged column; the scale mean of the inserted row (column values 10, 20): (3/2*10 + 3*20)/(9/2). *)
+Definition ex_csubs := [mkSub [0; 1] []].
+
+Example C04_example_compose_hypotheses :
+  t_ok None /\ 0 < t_n None /\ 0 <> 1 /\ tv_other None 0 /\ tv_other None 1 /\
+  0 < length ex_rsubs /\ 0 < length ex_csubs /\
+  s_sub (nth 0 ex_rsubs nosub) = [] /\ s_sub (nth 0 ex_csubs nosub) = [] /\
+  Forall (fun i => i < n_valid ex_ms) (s_add (nth 0 ex_rsubs nosub)) /\
+  Forall (fun j => j < n_valid ex_mc) (s_add (nth 0 ex_csubs nosub)) /\
+  NoDup (s_add (nth 0 ex_rsubs nosub)) /\ NoDup (s_add (nth 0 ex_csubs nosub)) /\
+  fresh_for 0 ex_ms ex_S /\ fresh_for 1 ex_mc ex_S /\ 0 < n_valid ex_ms /\ 0 < n_valid ex_mc.
+Proof.
+  assert (F0 : fresh_for 0 ex_ms ex_S).
+  { intros r Hr. simpl in Hr. repeat (destruct Hr as [<-|Hr]; [simpl; discriminate|]). destruct Hr. }
+  assert (F1 : fresh_for 1 ex_mc ex_S).
+  { intros r Hr. simpl in Hr. repeat (destruct Hr as [<-|Hr]; [simpl; discriminate|]). destruct Hr. }
+  assert (Hf0 : Forall (fun i => i < n_valid ex_ms) (s_add (nth 0 ex_rsubs nosub)))
+    by (repeat constructor; vm_compute; lia).
+  assert (Hf1 : Forall (fun j => j < n_valid ex_mc) (s_add (nth 0 ex_csubs nosub)))
+    by (repeat constructor; vm_compute; lia).
+  assert (Hn0 : NoDup (s_add (nth 0 ex_rsubs nosub))).
+  { simpl. constructor; [simpl; intuition lia|]. constructor; [simpl; tauto| constructor]. }
+  assert (Hn1 : NoDup (s_add (nth 0 ex_csubs nosub))).
+  { simpl. constructor; [simpl; intuition lia|]. constructor; [simpl; tauto| constructor]. }
+  repeat split; try exact F0; try exact F1; try exact Hf0; try exact Hf1; try exact Hn0; try exact Hn1;
+    try (vm_compute; lia); try reflexivity; try discriminate.
+Qed.
+
+Example C04_example_compose_values :
+  xred (mnth (b_inter (count_blocks 3 2 ex_rsubs ex_csubs (o_counts ex_S None 0 1 KCat ex_ms ex_mc 0) false)) 0 0)
+    = Fin (9 # 2) /\
+  xred (b_count ex_S None 0 1 ex_ms ex_mc 0 ex_rsubs ex_csubs 0 0) = Fin (9 # 2) /\
+  xred (mnth (b_inter (row_proportions 3 2 ex_rsubs ex_csubs (o_counts ex_S None 0 1 KCat ex_ms ex_mc 0) false false false
+                                       (o_rb ex_S None 0 1 KCat ex_ms ex_mc 0))) 0 0) = Fin 1 /\
+  xred (xdiv (b_count ex_S None 0 1 ex_ms ex_mc 0 ex_rsubs ex_csubs 0 0)
+             (b_tb ex_S None 0 1 ex_ms ex_mc 0 ex_rsubs ex_csubs 0 0)) = Fin (3 # 4) /\
+  map xred (map (fun i => mnth (b_cols (count_blocks 3 2 ex_rsubs ex_csubs (oc_counts ex_S None 0 1 KCat ex_ms ex_mc 0) false)) i 0) [0; 1; 2])
+    = [Fin 2; Fin (3 # 2); Fin (5 # 2)] /\
+  map xred (map (fun i => mnth (mc_counts ex_S None 0 1 KCat ex_ms ex_mc 0 ex_csubs 0) i 2) [0; 1; 2])
+    = [Fin 2; Fin (3 # 2); Fin (5 # 2)] /\
+  xred (scale_mean_vec
+          (tab 2 (fun j => mnth (b_rows (count_blocks 3 2 ex_rsubs ex_csubs (o_counts ex_S None 0 1 KCat ex_ms ex_mc 0) false)) 0 j))
+          (tab 2 (fun j => mnth (b_rows (row_base_blocks 3 2 ex_rsubs ex_csubs (o_rb ex_S None 0 1 KCat ex_ms ex_mc 0))) 0 j))
+          [Fin 10; Fin 20]) = Fin (50 # 3) /\
+  xred (scale_mean_vec
+          (tab 2 (fun j => mnth (m_counts ex_S None 0 1 KCat ex_ms ex_mc 0 ex_rsubs 0) 3 j))
+          (tab 2 (fun j => mnth (m_rb ex_S None 0 1 KCat ex_ms ex_mc 0 ex_rsubs 0) 3 j))
+          [Fin 10; Fin 20]) = Fin (50 # 3).
+Proof. vm_compute. repeat split; reflexivity. Qed.
